@@ -17,6 +17,7 @@ THEOREMS = {
                                     "SchedNV.vecGridPoint_props", "SchedNV.searchLeft_spec"],
     "SpecKitV.Props.C03": ["ltfPlan_grid", "lpsdPlan_grid", "lpsd_is_ltf", "newPlan_grid", "vecPlan_grid", "vecPlan_increasing"],
     "SpecKitV.Props.SchedGen": ["gen_ltf_round_eq", "gen_ltf_walk_eq_model", "gen_new_walk_eq_model"],
+    "SpecKitV.Props.VecGen": ["Arr.memo_eq", "Np.logspace_get", "Np.searchsortedLeft_eq", "gen_vec_walk_eq_model", "gen_vec_walk_eq_plan"],
     "SpecKitV.Props.Utils": ["gen_round_half_up_eq_model", "gen_round_half_up_eq_floor"],
 }
 CONTRACTS = ["np.logspace/np.searchsorted as modelled (10**linspace; count of grid points below the query)"]
